@@ -235,33 +235,30 @@ class Context:
                 return [str(i) for i in range(len(obj._elements))] + obj.keys()
             return obj.keys()
 
+        def new_array(elements):
+            """An array of this context (it inherits from Array.prototype)."""
+            arr = JSArray()
+            arr._elements = elements
+            arr._prototype = self._array_prototype
+            return arr
+
         def keys_fn(*args):
             obj = args[0] if args else UNDEFINED
             if not isinstance(obj, JSObject):
-                return JSArray()
-            arr = JSArray()
-            arr._elements = list(own_keys(obj))
-            return arr
+                return new_array([])
+            return new_array(list(own_keys(obj)))
 
         def values_fn(*args):
             obj = args[0] if args else UNDEFINED
             if not isinstance(obj, JSObject):
-                return JSArray()
-            arr = JSArray()
-            arr._elements = [read(obj, k) for k in own_keys(obj)]
-            return arr
+                return new_array([])
+            return new_array([read(obj, k) for k in own_keys(obj)])
 
         def entries_fn(*args):
             obj = args[0] if args else UNDEFINED
             if not isinstance(obj, JSObject):
-                return JSArray()
-            arr = JSArray()
-            arr._elements = []
-            for k in own_keys(obj):
-                entry = JSArray()
-                entry._elements = [k, read(obj, k)]
-                arr._elements.append(entry)
-            return arr
+                return new_array([])
+            return new_array([new_array([k, read(obj, k)]) for k in own_keys(obj)])
 
         def assign_fn(*args):
             if not args:
